@@ -2,7 +2,7 @@
    correspondence cases (tools/props/c02.py). No proofs. *)
 From Coq Require Import List ZArith Bool Arith.
 From PV Require Import Base.Index Base.Perm Base.Sum Np.NpZ Np.Array Model.Sparse Model.Repr Model.Harness
-                       Model.C02Spec Model.C02Dense.
+                       Model.C02Spec Model.C02Dense Model.C02Sparse.
 Import ListNotations.
 
 Definition zsp_ttv := @spec_ttv Z 0%Z Z.add Z.mul.
@@ -56,3 +56,11 @@ Definition zimpl_ttm_dense := @impl_ttm_dense Z 0%Z Z.add Z.mul.
 Definition zimpl_mttkrp_dense := @impl_mttkrp_dense Z 0%Z Z.add Z.mul.
 Definition zimpl_innerprod_dense := @impl_innerprod_dense Z 0%Z Z.add Z.mul.
 Definition zimpl_normsq_dense := @impl_normsq_dense Z 0%Z Z.add Z.mul.
+
+(* sparse / Kruskal impl models at Z *)
+Definition zimpl_innerprod_sp_dense := @impl_innerprod_sp_dense Z 0%Z Z.add Z.mul.
+Definition zimpl_innerprod_sp_sp := @impl_innerprod_sp_sp Z 0%Z Z.add Z.mul.
+Definition zimpl_normsq_sp := @impl_normsq_sp Z 0%Z Z.add Z.mul.
+Definition zimpl_ttv_k1 := @impl_ttv_k1 Z 0%Z Z.add Z.mul.
+Definition k_eqb (A B : ktensor Z) : bool :=
+  vec_eqb (kweights A) (kweights B) && list_eqb mat_eqb (kfactors A) (kfactors B).
